@@ -59,6 +59,7 @@ class Translator:
         for i, (name, sort, _, _) in enumerate(self.kinds):
             self.kind_id[name] = i + 1
             self.kind_sort[name] = sort
+        self.variants = conv.enum_variants()
         self.consts = self.string_consts()
         self.fns = []
         for f in rs_files('sv-parser-parser', exclude=('tests.rs', 'keywords.rs', 'utils.rs', 'lib.rs')):
@@ -277,7 +278,9 @@ class Translator:
                 en = m.group(1)
                 if en not in self.kind_id or self.kind_sort[en] != 'enum':
                     raise Unsupported('enum ' + en + ' is not a node kind')
-                return ('node', en, self.shape(v[2][0], env))
+                if m.group(2) not in self.variants.get(en, []):
+                    raise Unsupported('unknown variant ' + n)
+                return ('node', en + '::' + m.group(2), self.shape(v[2][0], env))
         raise Unsupported('result ' + k + ' ' + str(v)[:60])
 
     @staticmethod
@@ -298,8 +301,8 @@ class Translator:
         r'let mut (?P<acc>\w+) = (?P<outer>\w+) \{ nodes: (?P<init>\([^)]*\)) \}; '
         r'let \(s, (?P<vec>\w+)\) = many0\(pair\((?P<item>.*)\)\)\(s\)\?; '
         r'for \((?P<dot>\w+), (?P<body>\w+)\) in (?P<v2>\w+) \{ '
-        r'let (?P<tmp>\w+) = (?P<e1>\w+)::\w+\(Box::new\((?P<s1>\w+) \{ nodes: \((?P<e2>\w+)::\w+\(Box::new\((?P<acc2>\w+)\)\),\), \}\)\); '
-        r'(?P<acc3>\w+) = (?P<outer2>\w+) \{ nodes: \((?P<e3>\w+)::\w+\(Box::new\((?P<tmp2>\w+)\)\), (?P<dot2>\w+), (?P<body2>\w+)\), \}; \} '
+        r'let (?P<tmp>\w+) = (?P<e1>\w+)::(?P<w1>\w+)\(Box::new\((?P<s1>\w+) \{ nodes: \((?P<e2>\w+)::(?P<w2>\w+)\(Box::new\((?P<acc2>\w+)\)\),\), \}\)\); '
+        r'(?P<acc3>\w+) = (?P<outer2>\w+) \{ nodes: \((?P<e3>\w+)::(?P<w3>\w+)\(Box::new\((?P<tmp2>\w+)\)\), (?P<dot2>\w+), (?P<body2>\w+)\), \}; \} '
         r'Ok\(\(s, (?P<acc4>\w+)\)\)$')
     KWTAIL = re.compile(r'if is_keyword\(&(\w+)\) \{ Err\(Err::Error\(make_error\(s, ErrorKind::Fix\)\)\) \} else \{ Ok\(\(s, into_locate\((\w+)\)\)\) \}\s*$')
 
@@ -382,7 +385,9 @@ class Translator:
                 if self.kind_sort.get(en) != 'enum': raise Unsupported('nestl enum ' + en)
             for sn in (g['s1'], g['outer']):
                 if self.kind_sort.get(sn) != 'struct': raise Unsupported('nestl struct ' + sn)
-            return ('nestl', first, item, [g['e2'], g['s1'], g['e1'], g['e3']], g['outer'])
+            for en, vn in ((g['e1'], g['w1']), (g['e2'], g['w2']), (g['e3'], g['w3'])):
+                if vn not in self.variants.get(en, []): raise Unsupported('nestl variant ' + en + '::' + vn)
+            return ('nestl', first, item, [g['e2'] + '::' + g['w2'], g['s1'], g['e1'] + '::' + g['w1'], g['e3'] + '::' + g['w3']], g['outer'])
         while t:
             for rx, h in self.TAIL_TEMPLATES:
                 m = re.match(rx, t)
